@@ -245,7 +245,10 @@ func (ab *dsAddrBook) loadRecord(id peer.ID, cache bool, update bool) (pr *addrs
 		pr.Lock()
 		defer pr.Unlock()
 
-		if pr.clean(ab.clock.Now()) && update {
+		// always write a cleaned record through: a cached copy that differs
+		// from the stored one is never flushed later (clean reports no
+		// further change) and the lookahead GC skips it.
+		if pr.clean(ab.clock.Now()) {
 			err = pr.flush(ab.ds)
 		}
 		return pr, err
@@ -264,7 +267,7 @@ func (ab *dsAddrBook) loadRecord(id peer.ID, cache bool, update bool) (pr *addrs
 			return nil, err
 		}
 		// this record is new and local for now (not in cache), so we don't need to lock.
-		if pr.clean(ab.clock.Now()) && update {
+		if pr.clean(ab.clock.Now()) && (update || cache) {
 			err = pr.flush(ab.ds)
 		}
 	default:
